@@ -16,10 +16,10 @@ func verifFellBack(v Set) bool {
 	return false
 }
 
-// verif:bound VerifC01StringKernel L<=3 chars (any non-negative rune), offset in [-2,2], <=1 prior operation, probe index in [-4,6]
+// verif:bound VerifC01StringKernel L<=3 (thorough: 4) chars (any non-negative rune), offset in [-2,2], <=1 prior operation, probe index in [-4,6]
 // verif:cover VerifC01StringKernel has-true has-false with-append with-prepend with-generic without-first without-last without-middle where-some
 func VerifC01StringKernel() {
-	p := verifBaseString(3)
+	p := verifBaseString(verifWiden(3, 4))
 	if verifChoice(2) == 1 {
 		p = verifStrOp(p)
 	}
@@ -97,10 +97,10 @@ func VerifC01StringKernel() {
 	}
 }
 
-// verif:bound VerifC01BytesKernel L<=3 bytes (any), offset in [-2,2], <=1 prior operation, probe index in [-4,6]
+// verif:bound VerifC01BytesKernel L<=3 (thorough: 4) bytes (any), offset in [-2,2], <=1 prior operation, probe index in [-4,6]
 // verif:cover VerifC01BytesKernel has-true has-false with-generic without-hit
 func VerifC01BytesKernel() {
-	p := verifBaseBytes(3)
+	p := verifBaseBytes(verifWiden(3, 4))
 	if verifChoice(2) == 1 {
 		p = verifBytesOp(p)
 	}
